@@ -122,5 +122,7 @@ def main(tier, replay=None):
         "source absent, source = target, source an interface variable that no constraint mentions; TLC computes the substituted contract itself (coefficient addition) and demands "
         "semantic equality; non-trivial = source occurs in the contract and the call returned",
         replay=replay,
+        # renaming as the code does it (term level: coefficients added, key order; interface lists in place), spec/Rename.tla
+        extra=lambda rep, rd: __import__("renamedrv").conformance(rep, rd, PROP, tier),
         nontrivial=lambda ev: ev["exc"] == "none" and (ev["op"] == "renames" or (ev["s"] in (ev["c1"]["inv"] + ev["c1"]["outv"]) and ev["s"] != ev["t"])),
     )
